@@ -16,19 +16,21 @@ open Table
 
 variable {α : Type}
 
-/-- what the environment relies on about a bound computer — nothing more -/
+/-- known rows are exact (`Inv` of DESIGN.md: known ⇒ lower = upper) -/
+def Exact (t : Table α) : Prop := ∀ c, t.known c = true → t.lo c = t.hi c
+
+/-- what the environment relies on about a bound computer — nothing more: on a table whose known rows are
+    exact it keeps `n`, the known flags and the rows of known coalitions -/
 structure ComputeOK (compute : Table α → Except Err (Table α)) : Prop where
-  n : ∀ {t t' : Table α}, compute t = .ok t' → t'.n = t.n
-  known : ∀ {t t' : Table α}, compute t = .ok t' → ∀ c, t'.known c = t.known c
-  vals : ∀ {t t' : Table α}, compute t = .ok t' → ∀ c, t.known c = true → t'.lo c = t.lo c ∧ t'.hi c = t.hi c
+  n : ∀ {t t' : Table α}, Exact t → compute t = .ok t' → t'.n = t.n
+  known : ∀ {t t' : Table α}, Exact t → compute t = .ok t' → ∀ c, t'.known c = t.known c
+  vals : ∀ {t t' : Table α}, Exact t → compute t = .ok t' →
+    ∀ c, t.known c = true → t'.lo c = t.lo c ∧ t'.hi c = t.hi c
 
 /-- the two tables hold the same knowledge: same size, same known flags, same values on known rows -/
 def SameKnowledge (t1 t2 : Table α) : Prop :=
   t1.n = t2.n ∧ (∀ c, t1.known c = t2.known c) ∧
     ∀ c, t1.known c = true → t1.lo c = t2.lo c ∧ t1.hi c = t2.hi c
-
-/-- known rows are exact (`Inv` of DESIGN.md: known ⇒ lower = upper) -/
-def Exact (t : Table α) : Prop := ∀ c, t.known c = true → t.lo c = t.hi c
 
 /-- same size, same known flags, equal bounds on all rows `< 2^n` -/
 def SameRows (t1 t2 : Table α) : Prop :=
@@ -93,15 +95,15 @@ theorem EnvEq.trans {e1 e2 e3 : Env α} (h : EnvEq e1 e2) (h' : EnvEq e2 e3) : E
 theorem exact_of_compute {compute : Table α → Except Err (Table α)} (hok : ComputeOK compute)
     {t t' : Table α} (hex : Exact t) (h : compute t = .ok t') : Exact t' := by
   intro c hc
-  have hk : t.known c = true := by rw [← hok.known h c]; exact hc
-  have := hok.vals h c hk
+  have hk : t.known c = true := by rw [← hok.known hex h c]; exact hc
+  have := hok.vals hex h c hk
   rw [this.1, this.2]
   exact hex c hk
 
 theorem sameKnowledge_of_compute {compute : Table α → Except Err (Table α)} (hok : ComputeOK compute)
-    {t t' : Table α} (h : compute t = .ok t') : SameKnowledge t t' :=
-  ⟨(hok.n h).symm, fun c => (hok.known h c).symm, fun c hc =>
-    have := hok.vals h c hc
+    {t t' : Table α} (hex : Exact t) (h : compute t = .ok t') : SameKnowledge t t' :=
+  ⟨(hok.n hex h).symm, fun c => (hok.known hex h c).symm, fun c hc =>
+    have := hok.vals hex h c hc
     ⟨this.1.symm, this.2.symm⟩⟩
 
 theorem Fresh.exact {compute : Table α → Except Err (Table α)} (hok : ComputeOK compute) {t : Table α}
@@ -164,17 +166,24 @@ variable {compute : Table α → Except Err (Table α)} {gap : Table α → Exce
 omit [Neg α] [Sub α] [DecidableEq α] in
 /-- the table reached by reveal → compute → un-reveal → compute holds the knowledge it started with -/
 theorem roundtrip_knowledge (hok : ComputeOK compute) {t t2 : Table α} {c : Nat} {v : α}
-    (hk : t.known c = false) (h1 : compute (t.putValue c v) = .ok t2) :
+    (hex : Exact t) (hk : t.known c = false) (h1 : compute (t.putValue c v) = .ok t2) :
     SameKnowledge (t2.clearRow c) t := by
+  have hexp : Exact (t.putValue c v) := by
+    intro d hd
+    by_cases hdc : d = c
+    · subst hdc; simp [putValue]
+    · have hd' : t.known d = true := by simpa [putValue, hdc] using hd
+      simp only [putValue, hdc, if_false]
+      exact hex d hd'
   refine ⟨?_, ?_, ?_⟩
   · show t2.n = t.n
-    rw [hok.n h1]; rfl
+    rw [hok.n hexp h1]; rfl
   · intro d
     show (if d = c then false else t2.known d) = t.known d
     by_cases hd : d = c
     · subst hd; simp [hk]
     · simp only [hd, if_false]
-      rw [hok.known h1 d]
+      rw [hok.known hexp h1 d]
       simp [putValue, hd]
   · intro d hd
     have hdc : d ≠ c := by
@@ -182,8 +191,8 @@ theorem roundtrip_knowledge (hok : ComputeOK compute) {t t2 : Table α} {c : Nat
       subst h
       simp [clearRow] at hd
     have hk2 : t2.known d = true := by simpa [clearRow, hdc] using hd
-    have hk1 : (t.putValue c v).known d = true := by rw [← hok.known h1 d]; exact hk2
-    have := hok.vals h1 d hk1
+    have hk1 : (t.putValue c v).known d = true := by rw [← hok.known hexp h1 d]; exact hk2
+    have := hok.vals hexp h1 d hk1
     simp only [clearRow, hdc, if_false]
     rw [this.1, this.2]
     simp [putValue, hdc]
@@ -207,9 +216,9 @@ theorem env_undo (hok : ComputeOK compute) (hko : KnowledgeOnly compute)
   have ht : (stepped e t2).table = t2 := rfl
   rw [ht] at hcomp2
   -- the un-revealed table holds the original knowledge
-  have hsk : SameKnowledge (t2.clearRow c') e.table := roundtrip_knowledge hok hk hcomp1
   obtain ⟨t0, hsk0, hex0, hcomp0⟩ := hfresh
   have hexe : Exact e.table := exact_of_compute hok hex0 hcomp0
+  have hsk : SameKnowledge (t2.clearRow c') e.table := roundtrip_knowledge hok hexe hk hcomp1
   have hex3 : Exact (t2.clearRow c') := by
     intro d hd
     have hd' : e.table.known d = true := by rw [← hsk.2.1 d]; exact hd
@@ -217,12 +226,12 @@ theorem env_undo (hok : ComputeOK compute) (hko : KnowledgeOnly compute)
     rw [this.1, this.2]; exact hexe d hd'
   have hsk' : SameKnowledge (t2.clearRow c') t0 := hsk.trans hsk0.symm
   have hrows := hko.rows hsk' hex3 hex0 hcomp2 hcomp0
-  have hn4 : t4.n = e.table.n := by rw [hok.n hcomp2]; exact hsk.1
+  have hn4 : t4.n = e.table.n := by rw [hok.n hex3 hcomp2]; exact hsk.1
   have hsr : SameRows t4 e.table := by
     refine ⟨hn4, fun d => ?_, fun d hd => ?_⟩
-    · rw [hok.known hcomp2 d]; exact hsk.2.1 d
+    · rw [hok.known hex3 hcomp2 d]; exact hsk.2.1 d
     · apply hrows d
-      have : (t2.clearRow c').n = t4.n := (hok.n hcomp2).symm
+      have : (t2.clearRow c').n = t4.n := (hok.n hex3 hcomp2).symm
       rw [this]; exact hd
   have heq : EnvEq e2 e := by
     subst he2
